@@ -10,6 +10,22 @@ NOTE = ("trusted: clang 14 front end + CFG builder, cmake's compile database, th
         "The check decides the listed structural clauses only - see DESIGN.md section 5 'Not decided'.")
 
 CLAIMS = {
+    "C04": dict(
+        technique="context-sensitive must-facts dataflow over the call graph below parse() + truth-table entailment of guard preconditions",
+        text="Static, all inputs: every raise/throw site reachable from either parse() overload is, in each of its calling contexts, "
+             "either raise<parsing_error> or proven unreachable because the guard's precondition (derived from the accessor's own source, "
+             "predicate definitions inlined) is entailed by the branch facts on every path; standard-library throwers on the parse path "
+             "need a checked justification; iterator dereference/advance only under the end test; the eight documented rejections keep a "
+             "parsing_error guard; the token regex literal is well-formed. Does not decide that errors are raised *exactly* under the "
+             "documented conditions, nor resource exhaustion in std::regex_match.",
+        ref="5/C04"),
+    "C09": dict(
+        technique="lock-scope dataflow on the sink CFGs + storage/linkage classification of the mutex + who-may-touch scan",
+        text="Static, all schedules (given std::mutex / magic-static guarantees): in the mutex-protected stdout/stderr sinks every "
+             "reference to the guarded stream, including the flush, lies inside the lifetime of one scoped lock object; the mutex is one "
+             "object per process (not automatic, not an internal-linkage header variable); no other log code touches the streams; "
+             "smart_stream holds only per-object owners and no static/thread-shared state; logger::instance is a magic static.",
+        ref="5/C09"),
     "C14": dict(
         technique="call-graph write-set + CFG must-reset-on-all-paths analysis",
         text="Static, all-paths: every field of option/multi_option/toggle (and of the parser itself) that is written anywhere on the "
